@@ -368,6 +368,29 @@ def _slot_index(f, i, k, path):
     return e, None
 
 
+def rule_encstate(ctx, rep):
+    """encoder run-length state: whenever a function word is written to the ring (fct | FCT_BIT, or the marker followed by fct)
+    the decoder switches its current function to fct, so the encoder's last_fct_in must be fct as well on that path - otherwise
+    the next call with the *old* function is encoded as `same function` and the decoder invokes the wrong one"""
+    for fl in ALL:
+        F, fn = _defer_fns(ctx, fl)
+        f = fn["rcu"]
+        rep.touch(f)
+        fw = [s_ for s_ in ring_accesses(f, "store") if (lambda v: v == ("arg", 0) or (v[0] == "bin" and v[1] == "or" and v[2] == ("arg", 0)))(ir.expr(f, s_.args[0], 3))]
+        lf = [s_ for s_ in pat.stores(f, "defer_queue.last_fct_in") if ir.expr(f, s_.args[0], 3) == ("arg", 0)]
+        head_st = pat.stores(f, "defer_queue.head")
+        pat.require(len(fw) >= 2 and head_st, "%s: function-word stores of the encoder" % fl)
+        if not lf:
+            rep.bad("C13.encstate", fl + ".last_fct_in", "the encoder never records the function it last emitted (last_fct_in): every call re-emits the function word - or, if the field is compared but never set, none does", [fw[0].where()])
+            continue
+        for s_ in fw:
+            before = f.reach([f.entry()], [s_], avoid=lambda i: i in lf, include_start=True)[0] is None
+            after = f.reach([s_], head_st, avoid=lambda i: i in lf)[0] is None
+            rep.check(before or after, "C13.encstate", fl + ".last_fct_in@%d" % s_.line, "every path that emits a function word also sets last_fct_in = fct",
+                      "a function word is written to the ring on a path that leaves last_fct_in unchanged: the decoder now runs this function, the encoder still believes the previous one is current - "
+                      "the next call with the previous function is queued as a bare argument and invoked with the wrong function", [s_.where()])
+
+
 def rule_slots(ctx, rep):
     """Ring indexing.  Encoder (defer_rcu): on every path the words of one deferred call go to consecutive slots head, head+1,
     ... (each masked with the ring mask) and the head published afterwards is the old head plus the number of words written.
@@ -576,6 +599,7 @@ RULES = [
     ("C13.gp", rule_gp),
     ("C13.ring", rule_ring),
     ("C13.slots", rule_slots),
+    ("C13.encstate", rule_encstate),
     ("C13.locks", rule_locks),
     ("C13.reg", rule_reg),
     ("C13.unreg", rule_unreg),
